@@ -1280,8 +1280,7 @@ struct AddTree : public Conversion {
       // Closed form counts for the loop below
       newEdges = (size - 1 + (2 - 1)) / 2;  // (1) rounded up
       newEdges += (size - 2 + (2 - 1)) / 2; // (2) rounded up
-    } else if (size >= 1)
-      newEdges = 1;
+    }
     if (AddComplement)
       newEdges *= 2; // reverse edges
 
